@@ -21,6 +21,38 @@ pub(crate) fn closed_form(win: &[u8]) -> u32 {
     (s1 << 16) | (s2 & 0xffff)
 }
 
+/// exact field-by-field equality of two hashers with the same window size
+pub(crate) fn same_fields(a: &RollSum, b: &RollSum) -> bool {
+    let w = a.window.len();
+    if b.window.len() != w {
+        return false;
+    }
+    let mut ok = a.s1 == b.s1 && a.s2 == b.s2 && a.offset == b.offset;
+    let mut i = 0;
+    while i < w {
+        ok &= a.window[i] == b.window[i];
+        i += 1;
+    }
+    ok
+}
+
+/// same ring position and same window bytes.  (s1/s2 are not compared: two rolling computations of the same sums
+/// are an adder-chain equivalence the SAT back end does not finish; that the sums follow from the window content is
+/// the inductive lemma c10_rollsum_inductive_step_*.)
+pub(crate) fn same_window(a: &RollSum, b: &RollSum) -> bool {
+    let w = a.window.len();
+    if b.window.len() != w {
+        return false;
+    }
+    let mut ok = a.offset == b.offset;
+    let mut i = 0;
+    while i < w {
+        ok &= a.window[i] == b.window[i];
+        i += 1;
+    }
+    ok
+}
+
 /// C10-1 (inductive, any history): from any state whose (s1, s2, window ring)
 /// are consistent with a window `win`, one input gives the closed form of the
 /// shifted window and keeps the representation invariant.
